@@ -910,10 +910,14 @@ def minimise_spec(spec, fails, budget_s=60, keep_chains=False):
             for m in muts:
                 t = copy.deepcopy(sp)
                 t["inputs"]["rows"] = [r_ for r_ in inp["rows"] if r_["mutation_id"] != m]
+                if inp.get("expect_names") is not None:
+                    t["inputs"]["expect_names"] = [x for x in inp["expect_names"] if x != m]
+                    if not t["inputs"]["expect_names"]:
+                        continue
                 if inp.get("cluster_rows"):
                     t["inputs"]["cluster_rows"] = [r_ for r_ in inp["cluster_rows"] if r_["mutation_id"] != m]
                 yield t
-        if len(inp["samples"]) > 1:
+        if len(inp["samples"]) > 1 and inp.get("expect_names") is None:
             keep = inp["samples"][0]
             t = copy.deepcopy(sp)
             t["inputs"]["samples"] = [keep]
